@@ -347,6 +347,50 @@ def d4(chk, prog):
     chk.ok("method-dispatch", f"CLI choices {sorted(set(cho))} == SEGMENT_METHODS at {len(cho)} parsers")
 
 
+def d4b(chk, prog):
+    chk.clause("D4b", "by_arm splits each chromosome's bins into at most two contiguous pieces, at the largest interior gap when that gap is a centromere-sized one; every bin in exactly one piece, in order")
+    fi = prog.fn("skgenome.gary.GenomicArray.by_arm")
+    tb = Table(chk, "arm-partition", "by_arm(min_gap_size=100, min_arm_bins=2) on literal tables: gap in the middle / near an end / too small / two candidate gaps; two chromosomes; labels that are not positions", fi.loc(), fi.qn)
+    # bins of width 10; a list of starts per chromosome
+    cases = {"one large gap in the middle": {"chr1": [0, 10, 20, 30, 500, 510, 520, 530]},
+             "gap too small": {"chr1": [0, 10, 20, 30, 90, 100, 110, 120]},
+             "large gap inside the margin only": {"chr1": [0, 10, 500, 510, 520, 530, 540, 550]},
+             "two candidate gaps, the larger one second": {"chr1": [0, 10, 20, 200, 210, 220, 600, 610, 620]},
+             "too few bins to split": {"chr1": [0, 500, 510, 1000, 1010]},
+             "two chromosomes": {"chr2": [0, 10, 20, 30, 40, 50], "chr1": [0, 10, 20, 400, 410, 420]}}
+    for label, chroms in cases.items():
+        W.reset()
+        rows, k = [], 0
+        for c, starts in chroms.items():
+            for s_ in starts:
+                rows.append(dict(chromosome=c, start=s_, end=s_ + 10, gene="g", log2=0, rowid=k))
+                k += 1
+        g = make_ga("CopyNumArray", rows, {"sample_id": "S"}, index="any", exact=True, labels=[100 - 3 * i for i in range(len(rows))])
+        it = Interp(prog)
+        out = tb.guard(lambda: [(c, list(a.data.cols["rowid"].v)) for c, a in it.run_method(g, "by_arm", [100, 2])], label)
+        if out is None:
+            continue
+        want, k = [], 0
+        for c, starts in chroms.items():
+            ids = list(range(k, k + len(starts)))
+            k += len(starts)
+            n = len(starts)
+            margin = max(2, int(round(Fr(n, 10))))
+            split = None
+            if n > 2 * margin + 1:
+                # interior boundaries: between bin i-1 and bin i for i in margin+1 .. n-margin-1
+                cand = [(starts[i] - (starts[i - 1] + 10), i) for i in range(margin + 1, n - margin)]
+                best = max(cand, key=lambda t: (t[0], -t[1])) if cand else None
+                if best and best[0] >= 100:
+                    split = best[1]
+            if split:
+                want += [(c, ids[:split]), (c, ids[split:])]
+            else:
+                want.append((c, ids))
+        tb.cell(out == want, dict(case=label, got=out, want=want))
+    tb.done("by_arm does not partition a chromosome's bins into contiguous arms at the centromere gap (a bin is lost, duplicated or put in the wrong arm)")
+
+
 def d5(chk, prog):
     chk.clause("D5", "same table for 1..N processes: Executor.map, concat + sort")
     sites, banned = rules.fanout_sites(prog)
@@ -460,12 +504,15 @@ def run(chk):
     d3(chk, prog)
     d3b(chk, prog)
     d4(chk, prog)
+    d4b(chk, prog)
     d5(chk, prog)
     d6(chk, prog)
 
 
 _S = "cnvlib/segmentation/__init__.py"
 MUTANTS = [
+    dict(name="by_arm splits one bin too early", file="skgenome/gary.py", old="                cmere_idx = gaps.argmax() + margin + 1\n", new="                cmere_idx = gaps.argmax() + margin\n"),
+    dict(name="by_arm loses the q arm's first bin", file="skgenome/gary.py", old="                q_arm = subtable.index[cmere_idx:]", new="                q_arm = subtable.index[cmere_idx + 1:]"),
     dict(name="twin: distinct gene names through dict.fromkeys", expect="silent", file="cnvlib/segmentation/__init__.py", old="        subgenes = [g for g in pd.unique(bin_genes[bin_idx]) if g not in ignore]", new="        subgenes = list(dict.fromkeys(g for g in bin_genes[bin_idx] if g not in ignore))"),
     dict(name="regress: chained store through the start property", file=_S, old='    segments.data.iloc[0, segments.data.columns.get_loc("start")] = bins_start\n', new="    segments.start.iat[0] = bins_start\n"),
     dict(name="delete the end stretch", file=_S, old='    segments.data.iloc[-1, segments.data.columns.get_loc("end")] = bins_end\n', new=""),
